@@ -38,6 +38,44 @@ theorem resolveStftObj_length (size : Nat) (p : PyWnd K) (w : List K)
     · simp at h
     · simp at h
 
+/-- a window that resolves has no opaque item -/
+theorem opaqueItems_of_ok (size : Nat) (p : PyWnd K) (w? : Option (List K))
+    (h : resolveOlaObj size p = .ok w?) : opaqueItems size p = none := by
+  cases p with
+  | none => rfl
+  | obj o =>
+    simp only [resolveOlaObj] at h
+    simp only [opaqueItems]
+    cases hc : callStep size o with
+    | iterable r =>
+      rcases r with l | n
+      · rfl
+      · cases n with
+        | zero => rfl
+        | succ n => simp [hc, listStep] at h
+    | pyNone => rfl
+    | other => rfl
+
+/-- a window whose resolution fails otherwise than on its items has no opaque item -/
+theorem opaqueItems_of_err (size : Nat) (p : PyWnd K) (e : Err)
+    (h : resolveOlaObj size p = .error e) (he : e ≠ .windowItems) : opaqueItems size p = none := by
+  cases p with
+  | none => rfl
+  | obj o =>
+    simp only [resolveOlaObj] at h
+    simp only [opaqueItems]
+    cases hc : callStep size o with
+    | iterable r =>
+      rcases r with l | n
+      · rfl
+      · cases n with
+        | zero => rfl
+        | succ n =>
+          simp only [hc, listStep, Except.error.injEq] at h
+          exact absurd h.symm he
+    | pyNone => rfl
+    | other => rfl
+
 section top
 variable [Add K] [Mul K] [Neg K] [Div K] [OfNat K 0] [OfNat K 1] [NatCast K] [LT K] [DecidableLT K] [DecidableEq K]
 
@@ -49,16 +87,16 @@ theorem overlapAddListObj_eq (blks : List (List K)) (size? hop? : Option Nat) (p
     overlapAddListObj blks size? hop? p normalize =
       overlapAddList blks size? hop? (ofResolved w?) normalize := by
   unfold overlapAddListObj overlapAddList
-  simp only [hsz, h, resolveWnd_ofResolved]
+  simp only [hsz, h, resolveWnd_ofResolved, opaqueItems_of_ok size p w? h]
   rfl
 
 /-- a window object that does not resolve: that error at the first `next`, no sample -/
 theorem overlapAddListObj_err (blks : List (List K)) (size? hop? : Option Nat) (p : PyWnd K)
     (normalize : Bool) (size : Nat) (hsz : detectSize size? blks = some size)
-    (e : Err) (h : resolveOlaObj size p = .error e) :
+    (e : Err) (h : resolveOlaObj size p = .error e) (he : e ≠ .windowItems) :
     overlapAddListObj blks size? hop? p normalize = ⟨[], some e⟩ := by
   unfold overlapAddListObj
-  simp only [hsz, h]
+  simp only [hsz, h, opaqueItems_of_err size p e h he]
 
 omit [Mul K] in
 theorem olaPrologueErrObj_eq (size hop : Nat) (p : PyWnd K) (normalize : Bool)
